@@ -380,6 +380,13 @@ func streamIntraProxyRouting(
 		}
 	}
 
+	// Intra-proxy streams are served through the intra-proxy manager, which only exists on an instance that is part of a
+	// memberlist cluster. The marker header is ordinary metadata any caller can send: refuse the stream instead of
+	// dereferencing a nil manager in the sender goroutine (which would take the whole process down).
+	if shardManager.GetIntraProxyManager() == nil {
+		return serviceerror.NewFailedPrecondition("intra-proxy streams are not enabled on this proxy instance")
+	}
+
 	// Only allow intra-proxy when at least one shard is local to this proxy instance
 	isLocalSource := shardManager.IsLocalShard(sourceShardID)
 	isLocalTarget := shardManager.IsLocalShard(targetShardID)
